@@ -16,6 +16,8 @@ func init() {
 }
 
 func runC17(e *Engine, r *Report) {
+	// borrowed mechanism (round 9): read confirmations of witnesses count (C06/C18): a read whose quorum needs the witness otherwise never completes
+	borrow(e, r, "C06", "GD-confirm-voters")
 	// borrowed mechanisms (session 6, round 8): the check-quorum round counts the same members the quorum is made of (C18): a leader that cannot see its witnesses deposes itself although a majority is connected
 	borrow(e, r, "C18", "DEP-checkquorum")
 	tbl, err := e.RaftHandlerTable()
